@@ -20,7 +20,7 @@ def compare(op, impl, model):
     forward-error bound of the float computation); the implementation prints the float it computed (hex).  Accept iff
     |impl - exact| <= rel * |exact| (+1e-37 for flush-to-zero).  Everything else is compared literally."""
     kind = op.split(" ", 1)[0]
-    if kind not in ("apply", "undo", "eff"):
+    if kind not in ("apply", "undo", "eff", "apply1", "apply2", "undo1", "undo2"):
         return impl == model
     a, b = impl.split(), model.split()
     if len(a) != len(b):
@@ -51,24 +51,46 @@ def main(tier, replay):
     stats = vlib.run_differential(chk, PROP, "c13_binnorm", tier, compare=compare)
     vlib.standard_coverage(chk, stats,
         "real TrivialBinNormalisation / BinNormalisationFromProjData (non-TOF factors with non-TOF and TOF data, TOF factors, factors with more "
-        "segments) / BinNormalisationFromAttenuationImage (ProjMatrixByBinUsingRayTracing forward projector, several symmetry settings, x voxel "
-        "size != z voxel size) / BinNormalisationPETFromComponents (efficiencies, geo, block; exactly-1, near-1, zero efficiencies; odd and even "
-        "tangential size) / ChainedBinNormalisation (2 and 3 members, both nestings, empty) / BinNormalisation base-class apply/undo and "
-        "BinNormalisationWithCalibration through table-driven subclasses (zero and sub-1e-20 efficiencies), on generated block scanners "
-        "(non-TOF span 1, TOF 5 and 9/3 positions, span 3 with view mashing): set_up, is_trivial, get_bin_efficiency for every bin, "
-        "apply and undo of random data for every bin through RelatedViewgrams (trivial symmetries, 2-8 PET symmetry settings, the projector's "
-        "symmetries) and through apply/undo(ProjData&) (default and PET symmetries).  One line per sinogram row; the Lean model recomputes "
-        "every value exactly in Rat (exp in binary64) from the factor data / matrix rows sent as hex floats; comparison rule "
-        "|impl - exact| <= rel*|exact| with rel = 4*k*2^-24 for k float roundings on the path (table 1, calibration 3, components 5, chains sum+1) "
-        "and rel = 16*((n+3)*M+1)*2^-24 for an n-element attenuation row with M = sum|a*mu*vx/10|.  Oracle (all bins, on the implementation): "
-        "undo multiplies by one data-independent finite factor (two data sets), positive for positive inputs, equal to get_bin_efficiency where "
-        "reported; apply divides by it; apply(undo(d)) = undo(apply(d)) = d (1e-5) where the factor >= 1e-20; chain factor = product of member "
-        "factors; is_trivial => data unchanged; ACF = exp(line integral) with independently computed rows (no symmetries, no cache); "
-        "FromProjData::apply multiplies by the stored factor at TOF position 0 for non-TOF factors; all call routes agree; set_up accepts/"
-        "rejects the factor geometries it must.")
+        "segments) / BinNormalisationFromAttenuationImage (ProjMatrixByBinUsingRayTracing forward projector with several symmetry settings, and "
+        "its default projector ForwardProjectorByBinUsingRayTracing when none is given; x voxel size != z voxel size) / "
+        "BinNormalisationPETFromComponents (efficiencies, geo, block; exactly-1, near-1, zero efficiencies; odd and even tangential size; "
+        "scanners with 1-3 blocks per bucket in either direction, where the symmetry unit of the geometric factors is the bucket) / "
+        "ChainedBinNormalisation (2 and 3 members, both nestings, empty, one null member on either side; the whole chain and its partial "
+        "application apply_only_first/second, undo_only_first/second on related viewgrams and on whole data, is_first/second_trivial) / "
+        "BinNormalisation base-class apply/undo and BinNormalisationWithCalibration through table-driven subclasses (zero and sub-1e-20 "
+        "efficiencies), on generated block scanners (non-TOF span 1, TOF 5 and 9/3 positions, span 3 with view mashing): set_up, is_trivial, "
+        "get_bin_efficiency for every bin, apply and undo of random data for every bin through RelatedViewgrams (trivial symmetries, 2-8 PET "
+        "symmetry settings, the projector's symmetries) and through apply/undo(ProjData&) (default and PET symmetries).  One line per sinogram "
+        "row; the Lean model recomputes every value exactly in Rat (exp in binary64) from the factor data / matrix rows sent as hex floats; "
+        "for the `comphand` cases the per-bin component tables given to the model are built by hand in the harness (crystal pair of the bin; "
+        "geometric factor = value of the symmetry class of the pair, classes by union-find under exchange, unit rotation, unit axial shift and "
+        "the two mirrors; block factor = value of the unordered pair of blocks), not by apply_geo_norm/apply_block_norm/apply_efficiencies; "
+        "for the default projector the matrix rows come from a separate ProjMatrixByBinUsingRayTracing (attenuation image empty near the edge "
+        "of the field of view, where the two projectors differ).  Comparison rule |impl - exact| <= rel*|exact| with rel = 4*k*2^-24 for k "
+        "float roundings on the path (table 1, calibration 3, components 5, chains sum+1, a partial application of a chain: that member's) "
+        "and rel = 16*((n+3)*M+1)*2^-24 for an n-element attenuation row with M = sum|a*mu*vx/10|.  Decisions compared literally: "
+        "is_trivial, is_first/second_trivial (error for a null member), the chain constructor's refusal of two calibrated members, set_up of "
+        "FromProjData for 5 kinds of factor geometry, the refusal by error() of the attenuation class on TOF data and of the components class "
+        "on TOF / view-mashed / axially compressed data, and the check on use (`use2`): for each of FromProjData, base class, "
+        "FromAttenuationImage, PETFromComponents, Trivial and 6 chain configurations, objects never set up / set up for the data's geometry / "
+        "for more segments / for fewer segments / for non-TOF used on TOF / used on data with another ExamInfo, through related viewgrams and "
+        "through whole data.  Oracle (all bins, on the implementation): undo multiplies by one data-independent finite factor (two data "
+        "sets), positive for positive inputs, equal to get_bin_efficiency where reported; apply divides by it; apply(undo(d)) = "
+        "undo(apply(d)) = d (1e-5) where the factor >= 1e-20; chain factor = product of member factors (null member = 1); each half of a "
+        "chain multiplies/divides by that member's own factor, leaves the data untouched for a null member, and first-then-second equals the "
+        "chain; is_first/second_trivial = the member's is_trivial; components factor = hand-computed product (1e-5); is_trivial => data "
+        "unchanged; ACF = exp(line integral) with rows from a second matrix object (cache off), summed in the harness; FromProjData::apply multiplies by "
+        "the stored factor at TOF position 0 for non-TOF factors; all call routes agree; set_up accepts/rejects the factor geometries it "
+        "must; an object never set up or set up with fewer segments than the data is refused, one set up with more segments is accepted and "
+        "gives the same values as one set up for exactly the data's geometry.")
     chk.assumptions += ["float rounding is bounded, not modelled; overflow/underflow of float not modelled (generated values stay in range)",
-                        "matrix rows of the ray-tracing projector, detector pairs of bins and the symmetry expansion of geometric/block "
-                        "component factors are data for the model (properties C03/C04, C01, C20)",
+                        "matrix rows of the ray-tracing projector (also used as the expectation for the on-the-fly default projector: agreement "
+                        "of the two away from the edge of the field of view is C04's subject), detector pairs of bins, and - for the cases "
+                        "with library-expanded tables only - the symmetry expansion of geometric/block component factors are data for the "
+                        "model (properties C03/C04, C01, C20)",
+                        "ProjDataInfo::operator>= / operator== and ExamInfo::operator== are data for the check-on-use decisions (C01/C02)",
+                        "a whole-data call on an attenuation object (or on the half of a chain that contains one) is made only with the "
+                        "projector's own symmetries; apply_only_*/undo_only_*(ProjData&) cannot pass symmetries and are not called on such halves",
                         "exp is an abstract function in the theorems (E(a+b)=E(a)E(b), E>0) and binary64 exp in the driver"]
     if audit:
         vlib.proof_coverage(chk, audit, "cd lean && lake build StirVerif.C13.Props Driver.C13 && lake env lean ../build/out/Audit_C13.lean")
